@@ -449,6 +449,18 @@ def gen_strings(ctx, progs):
             else:
                 toks.insert(i, rng.choice(FRAGS))
         add("token-mutant", "".join(toks))
+    # every expression form in every pattern / lvalue position (to_lvalue and friends)
+    pats = ["x", "_", "1", "-1", "1.5", "2q", "'s'", "B'b'", "F'{x}'", "null", "a[1]", "a[1:2]", "a[:]", "a.b", "a::b", "f(x)", "f()", "(a, b)", "(a,)", "()", "[a, b]",
+            "[a, ...b]", "...a", "...", "a, b", "a, ...b, c", "a: int", "a: int, b", "(a: int)", "a: (b: c)", "1 + x", "x + 1", "a b", "a `f` b", "x!", "x ! 1", "!x", "{a: b}", "{}", "{a}",
+            "B[1]", "[]", "\\z -> z", "if (a) b else c", "a = b", "a := b", "(a = b)", "a and b", "a or b", "a coalesce b", "literally 3", "literally x", "every a", "a{b = c}", "x'", "a?",
+            "a, ", ", a", "a;", "a[", "(a", "a)", "int", "a: ", ": a", "a.1", "1.a", "a[1][2]", "a[b][c:d].e", "__internal_peek 0", "🐉0", "consume x", "pop x", "remove x[0]"]
+    ctxs = ["{} = 1", "{} := 1", "{} += 1", "{} max= 1", "{} .= f", "every {} = 1", "swap {}, y", "swap y, {}", "pop {}", "remove {}", "consume {}", "for ({} <- y) 1",
+            "for ({} <<- y) 1", "for ({} := y) 1", "for (a <- y; {} <- z) yield 1", "switch (1) case {} -> 1", "switch (1) case {} -> 1 case _ -> 2", "\\{} -> 1", "\\{}, {} -> 1", "\\({}) -> 1",
+            "try 1 catch {} -> 2", "struct S({})", "struct S(a, {} = 1)", "{} = {} = 1", "({}) = 1", "[{}] := [1]", "{}, {} = 1, 2", "x[{}] = 1", "x[{}:{}] = 1", "f({}) = 1", "import {}",
+            "freeze {} := 1", "literally {} = 1", "{}: int = 1", "x: {} = 1", "{}", "({})", "[{}]", "{{{}}}", "F'{{{}}}'", "{} ...", "... {}", "break {}", "return {}", "throw {}", "yield {}"]
+    combos = [(c, pp) for c in ctxs for pp in pats]
+    for c, pp in (combos if not ctx.quick() else rng.sample(combos, 600)):
+        add("lvalue", c.replace("{{", "\0").replace("}}", "\1").replace("{}", pp).replace("\0", "{").replace("\1", "}"))
     for _ in range(ctx.n(150, 2000)):
         n = rng.randrange(1, 40)
         add("random", "".join(rng.choice(alphabet) for _ in range(n)))
